@@ -7,7 +7,7 @@ import json
 from common import *
 from gast import *
 
-E2, E3, S_ = TAdt("E2"), TAdt("E3"), TAdt("S")
+E2, E3, S_, S2_ = TAdt("E2"), TAdt("E3"), TAdt("S"), TAdt("S2")
 MB, ME = TAdt("M", BOOL), TAdt("M", E2)
 
 
@@ -24,7 +24,7 @@ def gty(t):
     if k == "enum":
         return {"E2": E2, "E3": E3, "M_bool": MB, "M_E2": ME}[t["n"]]
     if k == "struct":
-        return S_
+        return S2_ if t["n"] == "S2" else S_
     raise ValueError(k)
 
 
@@ -32,11 +32,12 @@ VARIANTS = {"E2": [("P", []), ("Q", [{"k": "bool"}])],
             "E3": [("A", []), ("B", [{"k": "bool"}]), ("C", [{"k": "bool"}, {"k": "enum", "n": "E2"}])],
             "M_bool": [("None", []), ("Some", [{"k": "bool"}])],
             "M_E2": [("None", []), ("Some", [{"k": "enum", "n": "E2"}])]}
-FIELDS = [("x", {"k": "bool"}), ("y", {"k": "enum", "n": "E2"})]
+FIELDS_OF = {"S": [("x", {"k": "bool"}), ("y", {"k": "enum", "n": "E2"})], "S2": [("p", {"k": "bool"}), ("q", {"k": "bool"})]}
 SCRUT = {"bb": {"k": "tuple", "ts": [{"k": "bool"}, {"k": "bool"}]}, "e3": {"k": "enum", "n": "E3"},
          "e2b": {"k": "tuple", "ts": [{"k": "enum", "n": "E2"}, {"k": "bool"}]}, "i": {"k": "int"},
          "ib": {"k": "tuple", "ts": [{"k": "int"}, {"k": "bool"}]}, "s": {"k": "str"},
          "sb": {"k": "tuple", "ts": [{"k": "str"}, {"k": "bool"}]}, "st": {"k": "struct", "n": "S"},
+         "st2": {"k": "struct", "n": "S2"}, "st2b": {"k": "tuple", "ts": [{"k": "struct", "n": "S2"}, {"k": "bool"}]},
          "mb": {"k": "enum", "n": "M_bool"}, "me": {"k": "enum", "n": "M_E2"},
          "bbb": {"k": "tuple", "ts": [{"k": "tuple", "ts": [{"k": "bool"}, {"k": "bool"}]}, {"k": "bool"}]},
          "e3e2": {"k": "tuple", "ts": [{"k": "enum", "n": "E3"}, {"k": "enum", "n": "E2"}]}}
@@ -69,9 +70,9 @@ def gpat(p, t, names):
     if k == "st":
         fs = []
         for idx in p["order"]:
-            f, ft = FIELDS[idx - 1]
+            f, ft = FIELDS_OF[p["n"]][idx - 1]
             fs.append((f, gpat(p["ps"][idx - 1], ft, names)))
-        return PStruct("S", fs)
+        return PStruct(p["n"], fs)
     raise ValueError(k)
 
 
@@ -89,7 +90,8 @@ def gval(v, t):
         ts = variant_types(t["n"], v["v"])
         return Ctor(gty(t), v["v"], *[gval(x, ts[i]) for i, x in enumerate(v["as"])])
     if k == "struct":
-        return Struct(S_, [(FIELDS[i][0], gval(x, FIELDS[i][1])) for i, x in enumerate(v["fs"])])
+        F_ = FIELDS_OF[v["n"]]
+        return Struct(gty(t), [(F_[i][0], gval(x, F_[i][1])) for i, x in enumerate(v["fs"])])
     raise ValueError(k)
 
 
@@ -108,7 +110,7 @@ def shown(v, t):
         ts = variant_types(t["n"], v["v"])
         return v["v"] + ("(" + ",".join(shown(x, ts[i]) for i, x in enumerate(v["as"])) + ")" if v["as"] else "")
     if k == "struct":
-        return "S{" + ",".join(shown(x, FIELDS[i][1]) for i, x in enumerate(v["fs"])) + "}"
+        return v["n"] + "{" + ",".join(shown(x, FIELDS_OF[v["n"]][i][1]) for i, x in enumerate(v["fs"])) + "}"
 
 
 def tname(t):
@@ -147,7 +149,8 @@ def add_show_fn(p, t, done):
             parts.append(show_expr(Proj(Var("v"), i), x, need))
         parts.append(Str(")"))
     elif t["k"] == "struct":
-        parts = [Str("S{"), show_expr(Field(Var("v"), "x"), FIELDS[0][1], need), Str(","), show_expr(Field(Var("v"), "y"), FIELDS[1][1], need), Str("}")]
+        F_ = FIELDS_OF[t["n"]]
+        parts = [Str(t["n"] + "{"), show_expr(Field(Var("v"), F_[0][0]), F_[0][1], need), Str(","), show_expr(Field(Var("v"), F_[1][0]), F_[1][1], need), Str("}")]
     else:
         arms = []
         for vn, ts in VARIANTS[t["n"]]:
@@ -183,6 +186,7 @@ def matrix_program(m, idx, variant="unit"):
     p.enum("E3", [("A", []), ("B", [BOOL]), ("C", [BOOL, E2])])
     p.enum("M", [("None", []), ("Some", [TParam("T")])], gens=["T"])
     p.struct("S", [("x", BOOL), ("y", E2)])
+    p.struct("S2", [("p", BOOL), ("q", BOOL)])
     done = set()
     arms = []
     expected_lines = {}
